@@ -49,3 +49,92 @@ def reach(info, specs, allowed_missing=()):
                     "required": "all" if unedited else "advisory (file edited since the ranges were recorded)",
                     "ok": not missing, "gating": bool(unedited)})
     return out
+
+
+# ---------------------------------------------------------------------------------------------
+# whole-file reach of the files a property is anchored in (properties.jsonl: anchors.files)
+
+VERIF = os.path.dirname(HERE)
+_FILES = {}
+
+
+def files_of(prop):
+    """source files (relative to the repository) the property is anchored in"""
+    if not _FILES:
+        with open(os.path.join(VERIF, "properties.jsonl")) as f:
+            for ln in f:
+                if ln.strip():
+                    p = json.loads(ln)
+                    _FILES[p["id"]] = [x for x in p.get("anchors", {}).get("files", []) if x.endswith(".py")]
+    return list(_FILES.get(prop, []))
+
+
+def functions_of(path):
+    """[(qualified name, first line, last line)] of every function / method of a source file"""
+    import ast
+    with open(path) as f:
+        tree = ast.parse(f.read())
+    out = []
+
+    def walk(nodes, prefix):
+        for n in nodes:
+            if isinstance(n, (ast.FunctionDef, ast.AsyncFunctionDef)):
+                out.append((prefix + n.name, n.lineno, n.end_lineno))
+                walk(n.body, prefix + n.name + ".")
+            elif isinstance(n, ast.ClassDef):
+                walk(n.body, prefix + n.name + ".")
+    walk(tree.body, "")
+    return out
+
+
+def baseline():
+    p = os.path.join(HERE, "anchor_baseline.json")
+    if not os.path.exists(p):
+        return {}
+    with open(p) as f:
+        return json.load(f)
+
+
+def entered_functions(path, hit_lines):
+    hit = set(hit_lines)
+    out = []
+    for name, lo, hi in functions_of(path):
+        body = cover.executable_lines(path, lo, hi)
+        if body & hit:
+            out.append(name)
+    return out
+
+
+def file_reach(prop, info):
+    """per anchored file: which functions the workload entered (gating: every function the recorded baseline lists for
+    this property and tier must still be entered -- while the file is byte-identical to the recorded version), and how many
+    executable lines it executed (advisory; numba kernels are visible in interpreted shards only)"""
+    out = []
+    rec = recorded()
+    base = baseline().get(prop, {}).get("quick", {})      # the thorough workloads are supersets of the quick ones
+    for rel in files_of(prop):
+        path = os.path.join(info["repo"], rel)
+        try:
+            funcs_spans = functions_of(path)
+            funcs = [f[0] for f in funcs_spans]
+            # statements inside functions only: module-level statements run at import time, before the recorder starts
+            want = {ln for ln in cover.executable_lines(path, 1, 10 ** 9) if any(lo <= ln <= hi for _n, lo, hi in funcs_spans)}
+            entered = set(entered_functions(path, info["sets"].get("lines:" + rel, ())))
+        except (OSError, SyntaxError):
+            continue
+        got = set(info["sets"].get("lines:" + rel, ())) & want
+        unedited = rec.get(rel) is not None and rec.get(rel) == sha(path)
+        required = base.get(rel)
+        if required is not None:
+            lost = sorted(set(required) - entered)
+            out.append({"name": f"functions of {rel} entered by the workload",
+                        "observed": f"{len(entered)}/{len(funcs)}" + (f", no longer entered: {lost[:8]}" if lost else "") +
+                                    (f"; never entered: {sorted(set(funcs) - entered)[:10]}" if set(funcs) - entered else ""),
+                        "required": f"the {len(required)} entered at every recorded seed" if unedited else
+                                    "advisory (file edited since the baseline was recorded)",
+                        "ok": not lost, "gating": bool(unedited)})
+        missing = sorted(want - got)
+        out.append({"name": f"executable lines of {rel} executed (advisory)",
+                    "observed": f"{len(got)}/{len(want)}" + (f", never executed: {missing[:25]}" if missing else ""),
+                    "required": "advisory", "ok": True, "gating": False})
+    return out
